@@ -131,7 +131,6 @@ theorem delete_sim (cmp : K → K → Int) {h : Heap K V} {t : Tree K V} (hrel :
       | some xs => exact ⟨xs, rfl⟩
       | none =>
         exfalso
-        unfold Heap.delete at *
         exact absurd hd (by
           intro hd'
           -- `descend` returns only nodes it has read
@@ -191,5 +190,34 @@ theorem delete_sim (cmp : K → K → Int) {h : Heap K V} {t : Tree K V} (hrel :
         rw [hrel.gen]
         simp only [bumpIf, bump]
         split <;> simp
+
+/-! ## histories -/
+
+/-- the same history for the heap model -/
+def toHeapMut : Juniper.Proofs.Tree.Mut K V → Heap.Mut K V
+  | .put k v => .put k v
+  | .del k => .del k
+
+/-- every `Put` / `Delete` history keeps the two models in step (and the heap model never crashes) -/
+theorem refines_runMuts (cmp : K → K → Int) : ∀ (ms : List (Juniper.Proofs.Tree.Mut K V)) (h : Heap K V) (t : Tree K V),
+    Rel h t → BalTree t →
+    ∃ h' t', runMuts cmp t ms = some t' ∧ Heap.runMuts cmp h (ms.map toHeapMut) = some h' ∧ Rel h' t' ∧ BalTree t'
+  | [], h, t, hr, hb => ⟨h, t, rfl, rfl, hr, hb⟩
+  | .put k v :: ms, h, t, hr, hb => by
+    obtain ⟨h1, t1, hp, hhp, hr1⟩ := put_sim cmp hr hb k v
+    obtain ⟨t1', hp', hb1⟩ := bal_put cmp t k v hb
+    rw [hp] at hp'; cases hp'
+    obtain ⟨h', t', h1', h2', h3', h4'⟩ := refines_runMuts cmp ms h1 t1 hr1 hb1
+    refine ⟨h', t', ?_, ?_, h3', h4'⟩
+    · simp only [runMuts, applyMut, hp]; exact h1'
+    · simp only [List.map_cons, toHeapMut, Heap.runMuts, hhp, Option.bind_some]; exact h2'
+  | .del k :: ms, h, t, hr, hb => by
+    obtain ⟨h1, t1, hp, hhp, hr1⟩ := delete_sim cmp hr hb k
+    obtain ⟨t1', hp', hb1⟩ := bal_delete cmp t k hb hr.ids.1
+    rw [hp] at hp'; cases hp'
+    obtain ⟨h', t', h1', h2', h3', h4'⟩ := refines_runMuts cmp ms h1 t1 hr1 hb1
+    refine ⟨h', t', ?_, ?_, h3', h4'⟩
+    · simp only [runMuts, applyMut, hp]; exact h1'
+    · simp only [List.map_cons, toHeapMut, Heap.runMuts, hhp, Option.bind_some]; exact h2'
 
 end Juniper.Proofs.TreeHeapLink
